@@ -376,6 +376,19 @@ def rule_cover_all(fx, col):
                     _cover_all_for_each(fx, col, cx, b, bb, t, cb)
                     walkers.append(None)
     col.floor('COVER-ALL', 'pay walks', len(walkers), 1)
+    thr = lambda t: list(range(len(t['args']))) if U.callee_name(t) in ('chain', 'once', 'into_iter') else None
+    # a split walk: slots paid directly (outside any loop) in a body that also walks — `pay(node.helping_slot())` after the loop
+    direct = {}
+    for w in walkers:
+        if w is None:
+            continue
+        b = w[0]
+        for bb, t in b.calls(include_cleanup=False):
+            if _is_pay(t) and not any(bb in bl for h, bl, tl in b.loops()):
+                srcs = {U.callee_name(b.term(o[1])) for o in b.origins(t['args'][0], through_calls=thr) if o[0] == 'call'}
+                if srcs and srcs <= {'fast_slots', 'helping_slot'}:
+                    direct.setdefault(b.key, []).append((bb, t, srcs))
+    covered = {}
     for w in walkers:
         if w is None:
             continue
@@ -387,12 +400,27 @@ def rule_cover_all(fx, col):
             continue
         nbb, nt = nxt[0]
         ity = nt['callee'].get('self_ty', '')
-        col.add('COVER-ALL', '%s|iterator type' % fn, P._finite_iter_ty(ity) and 'Chain<' in ity and 'slice::Iter<' in ity and 'Once<' in ity,
-                'the walk consumes %s (only slice::Iter / Once / Chain admitted: no Take/Skip/StepBy/Filter)' % ity, b.loc(nbb))
-        thr = lambda t: list(range(len(t['args']))) if U.callee_name(t) in ('chain', 'once', 'into_iter') else None
         src = b.origins(nt['args'][0], through_calls=thr)
         names = {U.callee_name(b.term(o[1])) for o in src if o[0] == 'call'}
-        col.add('COVER-ALL', '%s|both accessors' % fn, {'fast_slots', 'helping_slot'} <= names, 'iterator built from %s' % sorted(names))
+        split = direct.get(b.key, [])
+        whole = P._finite_iter_ty(ity) and 'Chain<' in ity and 'slice::Iter<' in ity and 'Once<' in ity
+        part = P._finite_iter_ty(ity) and bool(split) and ('slice::Iter<' in ity or 'Once<' in ity)
+        col.add('COVER-ALL', '%s|iterator type' % fn, whole or part,
+                'the walk consumes %s (only slice::Iter / Once / Chain admitted: no Take/Skip/StepBy/Filter)%s' % (ity, '; the remaining slot is paid directly' if part and not whole else ''), b.loc(nbb))
+        node_op = _walk_node_operand(b, src)
+        for dbb, dt, srcs in split:
+            # the direct pay is unconditional once the walk is over (guards: only the walk's own loop exit), on the same node
+            guards = [(sbb, val) for (sbb, succ, val) in U.dominating_branches(b, dbb, unwind=False)]
+            only_exit = all(_is_discr_of(b, sbb, nt['dest']['local']) for sbb, _ in guards)
+            acc_t = [b.term(o[1]) for o in b.origins(dt['args'][0], through_calls=thr) if o[0] == 'call' and U.callee_name(b.term(o[1])) in ('fast_slots', 'helping_slot')]
+            same = node_op is not None and all(b.origins(a['args'][0]) == b.origins(node_op) for a in acc_t)
+            col.add('COVER-ALL', '%s|direct pay of %s' % (fn, '/'.join(sorted(srcs))), only_exit and same,
+                    'paid unconditionally (guards: %d, all the walk\'s own exit) on the node being walked: %s' % (len(guards), same), b.loc(dbb))
+            if only_exit and same:
+                names |= srcs
+        covered.setdefault(b.key, set()).update(names)
+        names = covered[b.key]
+        col.add('COVER-ALL', '%s|both accessors' % fn, {'fast_slots', 'helping_slot'} <= names, 'slots paid come from %s' % sorted(names))
         # the slot paid is the item yielded
         item_ok = nbb in _call_bbs(b, pt['args'][0])
         col.add('COVER-ALL', '%s|pays the yielded slot' % fn, item_ok, 'pay() is invoked on the item returned by next()')
